@@ -1385,3 +1385,216 @@ def _argparse_unit(ip: Interp, th):
 
 UNITS.append(Unit("argparse.sinks", _argparse_unit, ("C18",), [], theory_factory=lambda: Theory(),
                   trusted=["the AST scan sees every write/exit of argparse.py (no dynamic getattr tricks); argparse's own callees (gettext, shutil, textwrap, re) do not print"]))
+
+
+# ---- gather(): the set-up part (everything but the callback), executed from the real source ---------------------------
+class GatherSetupTheory(GatherTheory):
+    """ghost: $K distinct children so far, $REG children with a registered callback, $DL children put into `done_futs`,
+    $CB children whose callback ran (second loop)"""
+
+    def initial(self) -> St:
+        st = super().initial()
+        for k in ("$REG", "$DL"):
+            st.sh[k] = SetV.empty(RefL())
+        st.sh["$K"], st.sh["$CB"] = SetV.empty(RefL()), SetV.empty(RefL())
+        st.sh["$dlpos"] = ArrV(fresh("dlpos", A_RI))  # ghost: position in `done_futs` of a child listed there
+        return st
+
+    def setattr(self, st, fr, obj, attr, v):
+        if isinstance(obj, RefV) and attr == "_log_destroy_pending":
+            return [(st, NORMAL)]
+        return super().setattr(st, fr, obj, attr, v)
+
+    def empty_dict(self, st, fr, hint):
+        from pyvc.sym import DictV
+
+        return [(st, DictV.empty(Ref, RefL()))]
+
+    def iter_of(self, st, fr, v, node):
+        return super().iter_of(st, fr, v, node)
+
+    def call_builtin(self, st, fr, f, pos, kws, rest_kw, node):
+        ip = self.ip
+        if f.recv is None and f.name == "ensure_future":
+            arg = ip.deref(st, pos[0])
+            # ensure_future(arg): `arg` itself if it is a future, else a new task wrapping it - for an argument not seen before
+            # the result is not yet among the children (distinct awaitables give distinct futures)
+            fut = RefV(z3.Function("ensured_future", Ref, Ref)(arg.t))
+            st.assume(z3.And(fut.t != NONE, z3.Not(st.sh["$K"].has(fut.t))))
+            st.trace.append(("ensure_future", arg.t))
+            return [(st, fut)]
+        if f.recv is None and f.name == "futures._get_loop":
+            return [(st, RefV(z3.Const("LOOP", Ref)))]
+        if f.recv is None and f.name == "events.get_event_loop":
+            return [(st, RefV(z3.Const("LOOP", Ref)))]
+        if f.recv is None and f.name == "_GatheringFuture":
+            st.trace.append(("outer_created", pos[0]))
+            return [(st, OuterV(z3.IntVal(O_PENDING), NONE, z3.BoolVal(False)))]
+        return super().call_builtin(st, fr, f, pos, kws, rest_kw, node)
+
+    def construct(self, st, fr, c, pos, kws, node):
+        if c.name == "_GatheringFuture":
+            st.trace.append(("outer_created", pos[0]))
+            return [(st, OuterV(z3.IntVal(O_PENDING), NONE, z3.BoolVal(False)))]
+        return super().construct(st, fr, c, pos, kws, node)
+
+    def call_method(self, st, fr, recv, name, pos, kws, node):
+        ip = self.ip
+        val = ip.deref(st, recv)
+        if isinstance(val, RefV) and name == "add_done_callback":
+            cbv = pos[0]
+            ip.require(st, "setup:the-callback-is-registered-at-most-once-per-child,only-for-pending-distinct-children",
+                       z3.And(z3.BoolVal(isinstance(cbv, sym.FuncV) and cbv.name == "_done_callback"), st.sh["$K"].has(val.t), z3.Not(st.sh["$REG"].has(val.t)), z3.Not(st.sh["$DL"].has(val.t)),
+                              z3.Not(self.done(st.sh, val.t))), GATHER_PROPS)
+            st.sh["$REG"] = st.sh["$REG"].add(val.t)
+            return [(st, NoneV())]
+        if isinstance(val, RefV) and name == "create_future":
+            st.trace.append(("create_future",))
+            return [(st, OuterV(z3.IntVal(O_PENDING), NONE, z3.BoolVal(False)))]
+        if isinstance(val, SeqV) and name == "append" and isinstance(recv, PlaceV):
+            item = ip.deref(st, pos[0])
+            if recv.root == ("loc", "done_futs") and isinstance(item, RefV):
+                st.sh["$DL"] = st.sh["$DL"].add(item.t)
+                st.sh["$dlpos"] = ArrV(z3.Store(st.sh["$dlpos"].t, item.t, val.n))
+            ip.place_set(st, recv, val.append(item))
+            return [(st, NoneV())]
+        from pyvc.sym import DictV
+
+        if isinstance(val, DictV):
+            raise Unsupported("dict method " + name)
+        return super().call_method(st, fr, recv, name, pos, kws, node)
+
+    def contains(self, st, fr, c, item):
+        from pyvc.sym import DictV
+
+        return super().contains(st, fr, c, item)
+
+    def on_setitem(self, st, fr, cont, k, v):
+        # arg_to_fut[arg] = fut : a new distinct child
+        if cont.root == ("loc", "arg_to_fut") and isinstance(v, RefV):
+            st.sh["$K"] = st.sh["$K"].add(v.t)
+
+    def closure_contract(self, st, fr, f, pos, kws):
+        """`_done_callback(fut)` called directly for a child that was already done (contract = the invariant proved above)"""
+        if f.name != "_done_callback":
+            return None
+        ip = self.ip
+        fut = ip.deref(st, pos[0])
+        ip.require(st, "setup:direct-callback-only-for-a-done-distinct-child-without-registered-callback,once",
+                   z3.And(st.sh["$K"].has(fut.t), self.done(st.sh, fut.t), z3.Not(st.sh["$REG"].has(fut.t)), z3.Not(st.sh["$CB"].has(fut.t))), GATHER_PROPS)
+        st.sh["$CB"] = st.sh["$CB"].add(fut.t)
+        st.loc["nfinished"] = IntV(st.loc["nfinished"].t + 1) if "nfinished" in st.loc else IntV(fresh("nf", I))
+        from pyvc.theory import havoc_like
+
+        if isinstance(st.loc.get("outer"), OuterV):
+            st.loc["outer"] = havoc_like(st.loc["outer"], "after_cb")
+        st.trace.append(("direct_callback", fut.t))
+        return [(st, NoneV())]
+
+
+def gather_setup_unit(name, props):
+    def deco(fn):
+        def wrapped(ip: Interp, th):
+            std = StdRepo(stdlib_file("asyncio.tasks"), "tasks")
+            std.exc.update({"InvalidStateError": "Exception"})
+            ip.repo = std
+            ip.extra_functions = {"asyncio.tasks.gather(set-up)": std.functions["tasks.gather"].src_hash}
+            saved = Interp.MUTABLE_EXTRA
+            Interp.MUTABLE_EXTRA = saved + (OuterV,)
+            try:
+                return fn(ip, th, std)
+            finally:
+                Interp.MUTABLE_EXTRA = saved
+
+        UNITS.append(Unit(name, wrapped, props, [], theory_factory=lambda: GatherSetupTheory(), trusted=TRUSTED_GATHER + [
+            "ensure_future(arg) yields, for an argument not seen before, a future that is not yet among the children"]))
+        return fn
+
+    return deco
+
+
+@gather_setup_unit("asyncio.tasks.gather.setup", GATHER_PROPS)
+def u_gather_setup(ip: Interp, th: GatherSetupTheory, std: StdRepo):
+    from pyvc.sym import DictV
+
+    P = GATHER_PROPS
+    fi = std.functions["tasks.gather"]
+
+    def facts(s: St):
+        for k in ("$K", "$REG", "$DL", "$CB"):
+            for f in s.sh[k].qfacts():
+                s.assume(f)
+
+    def inv_setup(c):
+        s = c.st
+        sh = s.sh
+        K, REG, DL = sh["$K"], sh["$REG"], sh["$DL"]
+        a2f: DictV = c.loc("arg_to_fut")
+        children: SeqV = c.loc("children")
+        done_futs: SeqV = c.loc("done_futs")
+        x, a = z3.Const("x!su", Ref), z3.Const("a!su", Ref)
+        j = z3.Int("j!su")
+        return [("nfuts-counts-the-distinct-children", c.loc("nfuts").t == K.card),
+                ("K-is-the-range-of-arg_to_fut", z3.And(z3.ForAll([a], z3.Implies(a2f.has(a), K.has(z3.Select(a2f.cols[0], a)))), z3.Not(K.has(NONE)))),
+                ("every-distinct-child-is-registered-xor-listed-as-done", z3.ForAll([x], z3.And(z3.Implies(K.has(x), REG.has(x) != DL.has(x)), z3.Implies(REG.has(x), K.has(x)), z3.Implies(DL.has(x), z3.And(K.has(x), th.done(sh, x)))))),
+                ("children-are-distinct-children", z3.And(children.n >= 0, z3.ForAll([j], z3.Implies(z3.And(0 <= j, j < children.n), K.has(z3.Select(children.arrs[0], j)))))),
+                ("done_futs-holds-exactly-the-listed-ones", z3.And(done_futs.n >= 0, z3.ForAll([j], z3.Implies(z3.And(0 <= j, j < done_futs.n), DL.has(z3.Select(done_futs.arrs[0], j)))),
+                                                                   z3.ForAll([x], z3.Implies(DL.has(x), z3.And(0 <= z3.Select(sh["$dlpos"].t, x), z3.Select(sh["$dlpos"].t, x) < done_futs.n,
+                                                                                                                  z3.Select(done_futs.arrs[0], z3.Select(sh["$dlpos"].t, x)) == x))))),
+                ("nothing-finished-yet,no-outer-future-yet", z3.And(c.loc("nfinished").t == 0, z3.BoolVal(isinstance(c.loc("outer"), NoneV))))]
+
+    def inv_direct(c):
+        s = c.st
+        sh = s.sh
+        K, REG, DL, CB = sh["$K"], sh["$REG"], sh["$DL"], sh["$CB"]
+        done_futs: SeqV = c.loc("done_futs")
+        x = z3.Const("x!dc", Ref)
+        j = z3.Int("j!dc")
+        seen = lambda xx: z3.Exists([j], z3.And(0 <= j, j < c.i, z3.Select(done_futs.arrs[0], j) == xx))
+        return [("callbacks-ran-exactly-for-the-done-children-visited-so-far", z3.And(c.loc("nfinished").t == CB.card, z3.ForAll([x], z3.Implies(CB.has(x), z3.And(DL.has(x), K.has(x), th.done(sh, x)))),
+                                                                                     z3.ForAll([j], z3.Implies(z3.And(0 <= j, j < c.i), CB.has(z3.Select(done_futs.arrs[0], j)))))),
+                ("every-listed-child-sits-in-done_futs", z3.ForAll([x], z3.Implies(DL.has(x), z3.And(0 <= z3.Select(sh["$dlpos"].t, x), z3.Select(sh["$dlpos"].t, x) < done_futs.n,
+                                                                                                    z3.Select(done_futs.arrs[0], z3.Select(sh["$dlpos"].t, x)) == x)))),
+                ("registry-untouched", z3.And(c.loc("nfuts").t == K.card, z3.ForAll([x], z3.Implies(K.has(x), REG.has(x) != DL.has(x))), z3.ForAll([x], z3.Implies(DL.has(x), z3.And(K.has(x), th.done(sh, x)))),
+                                              z3.ForAll([j], z3.Implies(z3.And(0 <= j, j < done_futs.n), DL.has(z3.Select(done_futs.arrs[0], j))))))]
+
+    def c_ensure_future(ip_, s, fr, selfv, a):
+        """assumed contract of ensure_future (see the trusted list)"""
+        arg = ip_.deref(s, a["coro_or_future"])
+        fut = RefV(z3.Function("ensured_future", Ref, Ref)(arg.t))
+        a2f = s.loc.get("arg_to_fut")
+        seen = a2f.has(arg.t) if isinstance(a2f, DictV) else z3.BoolVal(False)
+        # an argument not seen before yields a future that is not yet among the children; the same argument the same future
+        s.assume(z3.And(fut.t != NONE, z3.Implies(z3.Not(seen), z3.Not(s.sh["$K"].has(fut.t)))))
+        if isinstance(a2f, DictV):
+            s.assume(z3.Implies(seen, z3.Select(a2f.cols[0], arg.t) == fut.t))
+            if ip_.feasible(s, seen):
+                ip_.cover(s.fork().assume(seen), "ensure_future:called-for-an-argument-seen-before")
+        return [(s, fut)]
+
+    ip.contracts["tasks.ensure_future"] = c_ensure_future
+    ip.loopspecs[("tasks.gather", 1)] = LoopSpec(inv_setup, P, name="register-children")
+    ip.loopspecs[("tasks.gather", 2)] = LoopSpec(inv_direct, P, name="run-callbacks-of-done-children")
+    th.after_loop_havoc = lambda s, st0, mod_shared: facts(s)
+    st = th.initial()
+    facts(st)
+    args = SeqV(fresh("nargs", I), [fresh("args", z3.ArraySort(I, Ref))], RefL())
+    st.assume(args.n >= 0)
+    j = z3.Int("j!a")
+    st.assume(z3.ForAll([j], z3.Implies(z3.And(0 <= j, j < args.n), z3.Select(args.arrs[0], j) != NONE)))
+    for s, v in ip.exec_function(st, fi, None, {"coros_or_futures": args, "return_exceptions": BoolV(fresh("re", B))}):
+        if isinstance(v, Exit):
+            ip.require(s, f"setup:noraise:{v.val.cls}", z3.BoolVal(False), P)
+            continue
+        if [e for e in s.trace if e[0] == "create_future"]:
+            ip.require(s, "setup:no-arguments:returns-a-future-that-already-has-its-(empty)-result", z3.And(args.n == 0, v.state == O_RESULT) if isinstance(v, OuterV) else z3.BoolVal(False), P)
+            continue
+        sh = s.sh
+        K, REG, DL, CB = sh["$K"], sh["$REG"], sh["$DL"], sh["$CB"]
+        x = z3.Const("x!post", Ref)
+        oc = [e for e in s.trace if e[0] == "outer_created"]
+        ip.require(s, "setup:returns-the-one-outer-future-created-over-the-children-list", z3.BoolVal(len(oc) == 1 and isinstance(v, OuterV)), P)
+        # G1 at the return (nfuts == |K|, nfinished == |CB|, CB subset of K, all of CB done) is exactly the invariant of the second
+        # loop at its exit (obligations loopinv-step:run-callbacks-of-done-children:*); the locals are gone after the return
+        ip.require(s, "setup:every-distinct-child-either-had-its-callback-run-or-has-it-registered(exactly-one-of-the-two)",
+                   z3.ForAll([x], z3.Implies(K.has(x), REG.has(x) != CB.has(x))), P)
